@@ -320,9 +320,12 @@ P_SYNC_ORDER = P("sync_order", "Sync::sync: wait_pre_meta(bitbox), wait_pre_meta
 P_NO_SWALLOW = P("no_swallow", "write_ht, write_wal, truncate_wal, recover, Meta::write, Sync::sync, bitbox wait_pre_meta/post_meta: every "
                  "io::Result / anyhow::Result / CompleteIo / TaskResult value is inspected, propagated or handed on before it is dropped",
                  P_BOUNDS, assumes=[ASSUME_P])
-P_COMMIT_CHECK = P("commit_check_first", "FinishedSession::{commit, try_commit_nonblocking}, Overlay::{commit, try_commit_nonblocking}: the "
-                   "previous-root comparison precedes the rollback-log append, mark_committed and Store::commit on every path", P_BOUNDS,
-                   assumes=[ASSUME_P])
+P_COMMIT_CHECK = [P(fn, nm + ": the previous-root comparison precedes the rollback-log append, mark_committed and Store::commit on "
+                    "every path", P_BOUNDS, assumes=[ASSUME_P])
+                  for fn, nm in [("commit_check_session_commit", "FinishedSession::commit"),
+                                 ("commit_check_session_try", "FinishedSession::try_commit_nonblocking"),
+                                 ("commit_check_overlay_commit", "Overlay::commit"),
+                                 ("commit_check_overlay_try", "Overlay::try_commit_nonblocking")]]
 P_POISON = P("store_commit_poison", "Store::commit: poisoned is loaded before Sync::sync; an Err from Sync::sync is returned only after "
              "poisoned was stored", P_BOUNDS, assumes=[ASSUME_P])
 P_RECOVER_ORDER = P("recover_order", "bitbox::recover: no HT write after the WAL was truncated", P_BOUNDS, assumes=[ASSUME_P])
@@ -449,7 +452,7 @@ PROPERTIES = {
                            "issued it reports success / before the redo log is discarded; decided by z3 over the MIR event structure; a "
                            "counterexample is replayed as a syscall trace (strace) of a real crash-recovery run.",
             "outside": ["beatree (ln/bbn) and rollback seglog fsync discipline", "torn sectors, lying fsync", "content-level equivalence"]},
-    "C12": {"level": "model_checking", "obligations": [P_COMMIT_CHECK],
+    "C12": {"level": "model_checking", "obligations": P_COMMIT_CHECK,
             "explanation": "In each of the four commit entry points the previous-root check dominates every effect; counterexamples are "
                            "replayed as concrete API histories (stale commit, then rollback / overlay-chain completeness).",
             "outside": ["interleavings of two racing committers", "effects hidden inside Store::commit on the accepted path"]},
